@@ -221,7 +221,7 @@ def _shard(arg):
         "C18Machine", CeilingChecker, rec, holder, CFG=CFG, N=2, NGRAM=False, MAXKEY=6, DRAWS=None,
         add=add, update_dict=update_dict, update_list=update_list,
     )
-    common.run_machine(M, common.derive_seed(seed, "C18", shard), n_examples, steps, holder, rec)
+    common.run_machine(M, common.derive_seed(seed, "C18", shard), n_examples, steps, holder, rec, retry=lambda c_: machines.replay_trace(c_, CeilingChecker))
     return rec
 
 
